@@ -235,6 +235,9 @@ func propC05() *Prop {
 		Jobs: func(tier string) []*sym.Job {
 			var js []*sym.Job
 			for n := int64(1); n <= tierPick(tier, 5, 8); n++ {
+				if n == 7 {
+					continue // 64-bit counter modulo 7: undecided after 5 min by every back end (z3, z3 5.1, cvc5, cvc5 bv-as-int); not claimed
+				}
 				rounds := int64(2)
 				if n > 4 {
 					rounds = 1
@@ -269,9 +272,9 @@ func propC05() *Prop {
 		Assumptions: append([]string{"round_robin: rotation counter < 2^63 (reachable-counter assumption: 292 years at 10^9 requests/s)", "picks go through the real findHealthyBackend; backends are eligible (healthy flag set) for the distribution clauses"}, commonAssumptions...),
 		Bounds: map[string]string{
 			"quick":    "round_robin N<=5 with any rotation counter (2 consecutive windows for N<=4); least_connections N<=4 with any gauges 0..2^30 and any health state; smooth WRR exact cycle from a fresh pool built by AddBackend: N<=2 with weights 0..6, N=3 with weights 0..4",
-			"thorough": "round_robin N<=8; least_connections N<=6; WRR N=3 weights 0..6, N=4 weights 0..4",
+			"thorough": "round_robin N in {1..6, 8} (N=7 is not claimed: the modulo-7 query is undecided by every back end within 5 min); least_connections N<=6; WRR N=3 weights 0..6, N=4 weights 0..4; drift after histories of <= 3 operations",
 		},
-		Outside: []string{"bounded-drift clause after histories longer than 2 (quick) / 3 (thorough) operations", "concurrent pickers (see C12 for the pairwise race/atomicity check)", "pools above the stated sizes"},
+		Outside: []string{"bounded-drift clause after histories longer than 2 (quick) / 3 (thorough) operations", "more than 2 (quick) / 3 (thorough) concurrent pickers, more than 2 picks per picker", "round_robin with N=7 and pools above the stated sizes"},
 	}
 }
 
